@@ -5,7 +5,7 @@ from packaging.version import Version
 
 from htmltools import HTMLDependency, Tag, TagList
 
-from engine.api import harness, pick
+from engine.api import conc, concrete, harness, pick
 
 _V0 = Version("0")
 _NAMES = ["alpha", "beta", "gamma"]
@@ -141,6 +141,56 @@ def h_placement(p0: int, p1: int, p2: int, p3: int, v: int) -> bool:
             return False
     sub = [d for d in order if d in div.get_dependencies(dedup=False)]
     return _same(div.get_dependencies(dedup=False), sub)
+
+
+@harness("C10", pre=lambda B, q0, q1, q2, c: 0 <= q0 < _POS and 0 <= q1 < _POS and 0 <= q2 < _POS and 0 <= c <= 4,
+         shard={"c": range(5)},
+         sel=["q0, q1: the two positions at which ONE object (by identity) sits in the tree", "q2: position of an unrelated dependency",
+              "c: what the shared object is (a tag holding dependencies at two levels, a TagList, a plain list, a tuple, a bare dependency)"],
+         targets=["htmltools._core.TagList.get_dependencies", "htmltools._core.Tag.get_dependencies", "htmltools._core._resolve_dependencies"],
+         outside="an object shared at more than two positions")
+def h_shared(q0: int, q1: int, q2: int, c: int) -> bool:
+    """Collection is by position, not by object: a subtree object that occurs at two positions contributes its
+    dependencies at both (dedup=False drops nothing), and the resolved list is that of the document-order list."""
+    return concrete(_shared_body, conc(q0, 0, _POS - 1), conc(q1, 0, _POS - 1), conc(q2, 0, _POS - 1), conc(c, 0, 4))
+
+
+def _shared_body(q0: int, q1: int, q2: int, c: int) -> bool:
+    a = HTMLDependency("alpha", "1.9", head="<!--a-->")
+    b = HTMLDependency("beta", "1.10", head="<!--b-->")
+    x = HTMLDependency("alpha", "1.10", head="<!--x-->")
+    if c == 0:
+        card = Tag("section", a, Tag("span", b, "t"))
+    elif c == 1:
+        card = TagList(a, Tag("em", b))
+    elif c == 2:
+        card = [a, [b]]
+    elif c == 3:
+        card = (a, Tag("em", b))
+    else:
+        card = a
+    inside = [a, b] if c < 4 else [a]
+    slots = [[] for _ in range(_POS)]
+    exp = [[] for _ in range(_POS)]
+    slots[q0].append(card); exp[q0].extend(inside)
+    slots[q2].append(x); exp[q2].append(x)
+    slots[q1].append(card); exp[q1].extend(inside)
+    inner = Tag("span", *slots[2], "t", _add_ws=False)
+    div = Tag("div", *slots[1], inner, Tag("p", *slots[3]), *slots[4])
+    root = TagList(*slots[0], div, [None, slots[5]])
+    order = []
+    for sl in exp:
+        order.extend(sl)
+    if not _same(root.get_dependencies(dedup=False), order):
+        return False
+    if not _same(Tag("main", root).get_dependencies(dedup=False), order):
+        return False
+    keys = {id(a): (9, 0), id(b): (10, 0), id(x): (10, 0)}
+    want = spec_resolve([(d.name, keys[id(d)], d) for d in order])
+    if not _same(root.get_dependencies(), want):
+        return False
+    # render() works on a tagified copy, so its dependency objects are copies: compare by content
+    return [(d.name, str(d.version), str(d.head)) for d in root.render()["dependencies"]] == [(d.name, str(d.version), str(d.head)) for d in want]
 
 
 @harness("C10", pre=lambda B, k, g: 0 <= k <= 13 and g == k // 5, shard={"g": range(3)}, sel=["k: malformed / single-item definitions"],
